@@ -30,8 +30,10 @@ static inline _Bool weak_ptr_size_expired(const weak_ptr_size *w)
     return 1;
   }
   /* coordinator: the tracked guard's thread is alive; every other heartbeat is arbitrary */
-  if(EP.t_active && i == EP.t_slot) return 0;
-  return nondet_bool();
+  _Bool expired = (EP.t_active && i == EP.t_slot) ? 0 : nondet_bool();
+  EP.scan_slot = i;
+  EP.scan_alive = !expired;
+  return expired;
 }
 
 /* weak_ptr::lock() on a slot's heartbeat.  The manager must never do this: a promoted reference keeps the heartbeat of
@@ -56,12 +58,18 @@ uint64_t ep_slot_load(atomic_u64 *a)
   __CPROVER_assert(i < kMaxThreadNum, "[C04][C20][safety] slot index below the capacity");
   if(EP.role == EP_WORKER) return a->v; /* my own slot: I am its only writer */
   if(EP.quiescent) return EP_MAX;                          /* C16 hypothesis: every guard has been destroyed */
-  if(EP.t_active && i == EP.t_slot) return EP.t_epoch;     /* C04 hypothesis: the tracked guard is alive across the call */
+  if(EP.t_active && i == EP.t_slot)                        /* C04 hypothesis: the tracked guard is alive across the call */
+  {
+    if(EP.t_epoch == EP.v && EP.scan_slot == i && EP.scan_alive) EP.v_just = 1;
+    return EP.t_epoch;
+  }
   {
     /* RELY: any other slot is unpinned or pins an epoch that was current when its owner read it */
     uint64_t p = nondet_u64();
     /* ASSUME[rely]: a pinned epoch is MAX or a value of the global epoch (<= current) -- obligation [G.pin-is-current] of every worker function */
     __CPROVER_assume(p == EP_MAX || p <= g_global->v);
+    /* the value is a "currently pinned epoch" only if this slot's heartbeat was tested, and found alive, just before */
+    if(p != EP_MAX && p == EP.v && EP.scan_slot == i && EP.scan_alive) EP.v_just = 1;
     return p;
   }
 }
